@@ -509,6 +509,11 @@ def enc_go_run(o, cls_ids):
     return {"head": head, "display": disp, "raw": o}
 
 
+def _txt(cps):
+    """code points as text; anything that is not a code point (the model's wildcards) shown as <n>"""
+    return "".join(chr(c) if 0 <= c < 0x110000 else "<%d>" % c for c in cps)
+
+
 def compare_run(model, impl):
     """model: list of int lists [head, final, chain, line1, ...] from Coq; impl: enc_go_run output.
     Returns None when they agree, else a short description."""
@@ -525,7 +530,7 @@ def compare_run(model, impl):
         if a == [-1]:
             continue
         if a != b:
-            return "display line differs: model %r implementation %r" % ("".join(map(chr, a)), "".join(map(chr, b)))
+            return "display line differs: model %r implementation %r" % (_txt(a), _txt(b))
     if mhead[0] in (2, 3):
         # exception message: [-1, code] inside = runtime fault text (wildcard)
         if ihead[0] != mhead[0]:
